@@ -44,7 +44,10 @@ type Config struct {
 	// change it at quiescent points)
 	InsertSource string `json:"insert_source,omitempty"`
 	Stall        bool   `json:"stall,omitempty"` // nobody takes entered lines off the input channel until a "drain" action (no shell attached)
-	Steps        int    `json:"steps"`
+	// PayloadSize: how many bytes the Ctrl+I source gives in this run (multi-line
+	// text made by payloadOf); 0 is the short fixed text of earlier versions
+	PayloadSize int `json:"payload_size,omitempty"`
+	Steps       int `json:"steps"`
 }
 
 // Action is one macro-step stimulus.
@@ -62,9 +65,10 @@ func (a Action) String() string {
 }
 
 type twrite struct {
-	at   int64 // fake-clock nanos since run start
-	step int
-	data []byte
+	at    int64 // fake-clock nanos since run start
+	step  int
+	data  []byte
+	token bool // hasToken(data)
 }
 
 type ypark struct {
@@ -83,6 +87,11 @@ type sim struct {
 	inWake    chan struct{}
 	inEOF     bool
 	writes    []twrite
+	outBuf    []byte // concatenation of writes[:outN]
+	outN      int
+	outNoCR   []byte // outBuf[:noCRUpto] without carriage returns
+	noCRUpto  int
+	seen      map[string]*seenKey
 	parks     []*ypark
 	parkCount map[string]int64
 	armed     map[string]bool
@@ -94,6 +103,7 @@ type sim struct {
 	doErr     error
 	insertN   int
 	payload   []byte
+	payloadS  string // the same as a string (shared by everything that expects it)
 
 	// mute model
 	ctrlO      int
@@ -204,7 +214,7 @@ func (stdio) Write(p []byte) (int, error) {
 		return len(p), nil
 	}
 	s.mu.Lock()
-	s.writes = append(s.writes, twrite{at: int64(time.Since(s.start)), step: s.step, data: append([]byte(nil), p...)})
+	s.writes = append(s.writes, twrite{at: int64(time.Since(s.start)), step: s.step, data: append([]byte(nil), p...), token: hasToken(p)})
 	s.mu.Unlock()
 	return len(p), nil
 }
@@ -249,7 +259,7 @@ func globalSetup() {
 // Run implements simkit.Engine.
 func (Engine) Run(t *testing.T, job *simkit.Job, rng *simkit.RNG, idx int64, c *simkit.Case) *simkit.Outcome {
 	globalSetup()
-	s := &sim{rng: rng, faults: map[string]int64{}, probes: map[string]int64{}, armed: map[string]bool{}, parkCount: map[string]int64{}}
+	s := &sim{rng: rng, faults: map[string]int64{}, probes: map[string]int64{}, armed: map[string]bool{}, parkCount: map[string]int64{}, seen: map[string]*seenKey{}}
 	if c != nil {
 		s.replay = true
 		if err := json.Unmarshal(c.Config, &s.cfg); err != nil {
@@ -364,7 +374,8 @@ func (s *sim) main() {
 	cap := s.cfg.ChanCap
 	s.ich = make(chan string, cap)
 	s.och = make(chan opshell.CLine, cap)
-	s.payload = []byte("f1() {\n echo one\n}\n# TABDOC: f1 first\n\nf2() { echo \"two\"; }\n")
+	s.payload = payloadOf(s.cfg.PayloadSize)
+	s.payloadS = string(s.payload)
 	s.srcMode = s.cfg.InsertSource
 	sh, cleanup, err := opshell.New(s.ich, s.och, "> ", s.cfg.NoTS, s.readSource, "payload")
 	if err != nil {
@@ -506,7 +517,14 @@ func (s *sim) settle() {
 			select {
 			case l := <-s.ich:
 				s.got = append(s.got, l)
-				s.obs("ich %q", clipS(l))
+				if len(l) > clipLen {
+					s.obs("ich %q (%d bytes)", clipS(l), len(l))
+				} else {
+					s.obs("ich %q", l)
+				}
+				if len(l) >= largePayload && l == s.payloadS {
+					s.probes["large_insert_delivered_whole"]++
+				}
 				got = true
 				continue
 			default:
@@ -520,11 +538,65 @@ func (s *sim) settle() {
 	s.harnessErr = "settle does not converge"
 }
 
+// clipLen: no trace line or message carries more than this of one entry.
+const clipLen = 60
+
 func clipS(x string) string {
-	if len(x) > 60 {
-		return x[:60] + "..."
+	if len(x) > clipLen {
+		return x[:clipLen] + "..."
 	}
 	return x
+}
+
+// largePayload: from this size on an insert counts as large in the evidence
+// (the counters only; nothing is judged by size).
+const largePayload = 32 << 10
+
+// payloadOf makes what the Ctrl+I source gives: n bytes of multi-line text
+// (function definitions, comments, an empty line now and then, some non-ASCII),
+// a function of n alone.  The last byte is a newline.  n == 0 gives the short
+// fixed text of earlier versions.
+func payloadOf(n int) []byte {
+	if n <= 0 {
+		return []byte("f1() {\n echo one\n}\n# TABDOC: f1 first\n\nf2() { echo \"two\"; }\n")
+	}
+	b := make([]byte, 0, n+128)
+	for i := 1; len(b) < n; i++ {
+		switch i % 5 {
+		case 0:
+			b = append(b, '\n')
+		case 1:
+			b = fmt.Appendf(b, "f%d() {\n echo \"line %d of the insert\"\n}\n", i, i)
+		case 2:
+			b = fmt.Appendf(b, "# TABDOC: f%d does caf\xc3\xa9 number %d\n", i-1, i)
+		case 3:
+			b = fmt.Appendf(b, "g%d() { printf '%%s\\n' \"$@\" | sed -e 's/^/%d: /'; }\n", i, i)
+		default:
+			b = fmt.Appendf(b, "V%d='%x'\n", i, uint64(i)*0x9e3779b97f4a7c15)
+		}
+	}
+	b = b[:n]
+	b[n-1] = '\n'
+	return b
+}
+
+// sizeClass names the payload size for the evidence counters.
+func sizeClass(n int) string {
+	switch {
+	case n == 0:
+		return "short_fixed"
+	case n < largePayload:
+		return "under_32k"
+	case n == largePayload:
+		return "32768"
+	case n == largePayload+1:
+		return "32769"
+	case n <= 2*largePayload+1:
+		return "about_64k"
+	case n < 512<<10:
+		return "about_100k"
+	}
+	return "about_1m"
 }
 
 // disarm stops parking (first, so that nothing released can park again) and
@@ -746,7 +818,7 @@ func (s *sim) apply(a Action) {
 			case 0x09:
 				// what is inserted is what the source gives when the shell reads it,
 				// some time from now on: see expEnt
-				e := expEnt{text: string(s.payload), insert: true}
+				e := expEnt{text: s.payloadS, insert: true}
 				e.see(s.srcMode)
 				s.expect = append(s.expect, e)
 				if s.srcMode != "" {
@@ -759,6 +831,12 @@ func (s *sim) apply(a Action) {
 					s.probes["insert_behind_slow_insert"]++
 				}
 				s.probes["ctrl_i"]++
+				if s.srcMode == "" {
+					s.probes["ctrl_i_payload_"+sizeClass(s.cfg.PayloadSize)]++
+					if len(s.payload) > largePayload {
+						s.faults["insert_payload_large"]++
+					}
+				}
 			case 0x0a:
 				s.probes["ctrl_j"]++
 			default:
@@ -869,12 +947,54 @@ func (s *sim) modelAdvance(now int64) {
 	}
 }
 
+// termBytes is everything written to the terminal so far.  What has been
+// written never changes, so the concatenation is kept and only extended.
 func (s *sim) termBytes() []byte {
 	s.mu.Lock()
 	defer s.mu.Unlock()
-	var b []byte
-	for _, w := range s.writes {
-		b = append(b, w.data...)
+	for _, w := range s.writes[s.outN:] {
+		s.outBuf = append(s.outBuf, w.data...)
 	}
-	return b
+	s.outN = len(s.writes)
+	return s.outBuf
+}
+
+// termBytesNoCR is out (the result of termBytes) with the carriage returns
+// taken out, kept and extended in the same way.
+func (s *sim) termBytesNoCR(out []byte) []byte {
+	for _, c := range out[s.noCRUpto:] {
+		if c != '\r' {
+			s.outNoCR = append(s.outNoCR, c)
+		}
+	}
+	s.noCRUpto = len(out)
+	return s.outNoCR
+}
+
+// onTerm: does out (the result of termBytes) contain key?  As out only ever
+// grows, a key found once stays found and one not found needs looking for
+// only in what is new.
+func (s *sim) onTerm(out []byte, key string) bool {
+	st := s.seen[key]
+	if st == nil {
+		st = &seenKey{}
+		s.seen[key] = st
+	}
+	if st.found {
+		return true
+	}
+	from := st.upto - len(key) + 1
+	if from < 0 {
+		from = 0
+	}
+	if from < len(out) && bytes.Contains(out[from:], []byte(key)) {
+		st.found = true
+	}
+	st.upto = len(out)
+	return st.found
+}
+
+type seenKey struct {
+	found bool
+	upto  int // how much of the terminal's output has been searched
 }
